@@ -21,6 +21,8 @@ Statements
     NAME[<mask>] = <expr>               NAME a vector this function allocated itself
     if <test>: ... [else: ...]          no return/raise inside; variables merged after the branch
     try: NAME = <e1>  except NotImplementedError: NAME = <e2>
+    try: A, B = eigenspectrum(X, ...)   except scipy.sparse.linalg.ArpackNoConvergence:
+        A, B = eigenspectrum(X.toarray(), <same n_eigs, left>)      only this class, only the dense fall-back
     assert <test>[, message]
     warnings.warn(<no calls inside>)    no effect on the returned values
     return <expr | tuple>               last statement only
@@ -462,6 +464,46 @@ class Fn:
             reject(s, "unsupported assignment target (in-place attribute stores are not accepted)")
         if isinstance(s, ast.AugAssign):
             reject(s, "augmented assignment (in-place update) is not accepted")
+        if isinstance(s, ast.Try) and len(s.handlers) == 1 and s.handlers[0].type is not None \
+                and dotted(s.handlers[0].type) == "scipy.sparse.linalg.ArpackNoConvergence":
+            # try: A, B = eigenspectrum(X, ...) / except ArpackNoConvergence: A, B = eigenspectrum(X.toarray(), ...)
+            h = s.handlers[0]
+            why = "expected try: a, b = eigenspectrum(X, ...) / except scipy.sparse.linalg.ArpackNoConvergence: " \
+                  "a, b = eigenspectrum(X.toarray(), n_eigs=<same>, left=True)"
+            ok = (len(s.body) == 1 and not s.orelse and not s.finalbody and h.name is None and len(h.body) == 1
+                  and all(isinstance(x, ast.Assign) and len(x.targets) == 1 and isinstance(x.targets[0], ast.Tuple)
+                          and all(isinstance(t, ast.Name) for t in x.targets[0].elts)
+                          and isinstance(x.value, ast.Call) and dotted(x.value.func) == "eigenspectrum"
+                          and len(x.value.args) == 1 for x in (s.body[0], h.body[0]))
+                  and "eigenspectrum" in self.funcs)
+            if not ok:
+                reject(s, why)
+            c1, c2 = s.body[0].value, h.body[0].value
+            if [t.id for t in s.body[0].targets[0].elts] != [t.id for t in h.body[0].targets[0].elts]:
+                reject(s, why + " (the handler binds other names)")
+            x = c1.args[0]
+            if not (isinstance(x, ast.Name) and env.get(x.id, ("",))[0] == "A"):
+                reject(s, why + " (the guarded call must be on a plain 2-D array name)")
+            if ast.unparse(c2.args[0]) != "%s.toarray()" % x.id:
+                reject(s, why + " (the handler must call the solver on %s.toarray())" % x.id)
+            k1, k2 = kwargs(c1, ("n_eigs", "left", "maxiter", "tol")), kwargs(c2, ("n_eigs", "left", "maxiter", "tol"))
+            for k in ("n_eigs", "left"):
+                if k not in k1 or k not in k2 or ast.unparse(k1[k]) != ast.unparse(k2[k]):
+                    reject(s, why + " (%s differs between the call and its fall-back)" % k)
+            v1 = self.ex(c1, env)
+            v2 = self.ex(c2, env)
+            if not (v1.fallible and v2.fallible) or v1.ty != v2.ty or not isinstance(v1.ty, tuple) \
+                    or len(v1.ty) != len(s.body[0].targets[0].elts):
+                reject(s, why)
+            names = []
+            for t, ty in zip(s.body[0].targets[0].elts, v1.ty):
+                if t.id == "_" or ty == "IGN":
+                    names.append("_")
+                else:
+                    env[t.id] = (ty, v1.owned and v2.owned)
+                    names.append(t.id)
+            return "rbind (try_noconv %s %s) (fun '(%s) =>\n  %s)" % (v1.s, v2.s, ", ".join(names),
+                                                                      self_block(rest, env, final))
         if isinstance(s, ast.Try):
             ok = (len(s.body) == 1 and len(s.handlers) == 1 and not s.orelse and not s.finalbody
                   and isinstance(s.handlers[0].type, ast.Name) and s.handlers[0].type.id == "NotImplementedError"
@@ -656,11 +698,10 @@ def translate(repo):
     check_sig(es, ["T", "n_eigs", "left", "maxiter", "tol"], ["None", "True", "100000", "1e-30"], REL_TM)
     f2 = dict(funcs)
     f2["eigenspectrum"] = ("eig_of eig", ["A"], ("IGN", "EVECS"), True)
-    text, _ = Fn(f2).function(fn, [("T", "A")], "(eig : arr -> option (list Q))", "V", "gen_eq_probs")
-    out.append("(* eigenspectrum(T, n_eigs=3, left=True)[1][:, 0]: the leading left eigenvector scaled to sum one,\n"
-               "   as computed by the solver `eig` (ARPACK for sparse T with >= 1000 states, LAPACK otherwise) *)\n"
-               "Definition eig_of (eig : arr -> option (list Q)) (T : arr) : res (unit * list Q) :=\n"
-               "  match eig T with Some v => Ok (tt, v) | None => Err end.\n")
+    text, _ = Fn(f2).function(fn, [("T", "A")], "(eig : arr -> eig_ans)", "V", "gen_eq_probs")
+    out.append("(* eig_of eig T (Base/BuildersBase.v) = eigenspectrum(T, n_eigs=3, left=True)[1][:, 0]: the leading left\n"
+               "   eigenvector scaled to sum one, as answered by the solver `eig` (ARPACK for sparse T with >= 1000\n"
+               "   states, LAPACK otherwise); ARPACK may answer ArpackNoConvergence instead, for sparse T only *)\n")
     out.append(text)
     # ---- normalize, transpose
     bparams = [("C", "A"), ("prior_counts", "P"), ("calculate_eq_probs", "B")]
